@@ -60,5 +60,7 @@ package isaacstates
 //@   prop C08
 //@   requires bb.pool != nil && bb.broadcastFunc != nil && bl != nil && bb.local != nil && bb.Logging != nil
 //@   requires bbset == 0
+//@   callsite SetBallot requires locked(bb.l)
+//@   callsite Ballot requires locked(bb.l)
 //@   fnparam broadcastFunc requires a0 == bl
 //@   fnparam broadcastFunc requires !a0.SignFact().Node().Equal(bb.local) || bbset == 1 || (snd(bb.pool.Ballot(a0.Point().Point, a0.Point().Stage(), isaac.IsSuffrageConfirmBallotFact(a0.SignFact().Fact()))) && fst(bb.pool.Ballot(a0.Point().Point, a0.Point().Stage(), isaac.IsSuffrageConfirmBallotFact(a0.SignFact().Fact()))).SignFact().Fact().Hash().Equal(a0.SignFact().Fact().Hash()))
